@@ -222,7 +222,8 @@ func (b *ByteBuffer) Read(dst []byte) (int, error) {
 		return 0, nil
 	}
 
-	if b.ri == 0 {
+	if b.ri == b.si {
+		// Nothing readable. Note that b.ri might be non-zero if there are saved bytes.
 		return 0, io.EOF
 	}
 
